@@ -547,6 +547,45 @@ func c05Order(r *rand.Rand, d *c05Dag, mode int) []c05Ev {
 	return out
 }
 
+// all parents-first orders of a (small) DAG, up to limit
+func c05AllOrders(d *c05Dag, limit int) [][]c05Ev {
+	var res [][]c05Ev
+	done := map[int]bool{}
+	var cur []c05Ev
+	var rec func()
+	rec = func() {
+		if len(res) >= limit {
+			return
+		}
+		if len(cur) == len(d.evs) {
+			res = append(res, append([]c05Ev{}, cur...))
+			return
+		}
+		for _, e := range d.evs {
+			if done[e.id] {
+				continue
+			}
+			ok := true
+			for _, p := range e.parents {
+				if !done[p] {
+					ok = false
+					break
+				}
+			}
+			if !ok {
+				continue
+			}
+			done[e.id] = true
+			cur = append(cur, e)
+			rec()
+			cur = cur[:len(cur)-1]
+			done[e.id] = false
+		}
+	}
+	rec()
+	return res
+}
+
 func c05Header(d *c05Dag, fcsize, vcsize, diffk, mal int) []string {
 	h := []string{strconv.Itoa(d.nv)}
 	for _, w := range d.ws {
@@ -576,17 +615,71 @@ func c05PickDag(r *rand.Rand, tier string, i int) *c05Dag {
 	return c05GenDag(r, nv, nev, ncheat, 0.2+0.5*r.Float64())
 }
 
+// c05Malform corrupts a few events of a parents-first order so that the stream leaves wf_stream
+// (the index itself validates nothing): seq gaps, a foreign first parent as "self-parent", seq 1
+// with parents kept, creator changed.  Used with mal=1: implementation vs model only.
+func c05Malform(r *rand.Rand, d *c05Dag, order []c05Ev) []c05Ev {
+	out := make([]c05Ev, len(order))
+	copy(out, order)
+	k := 1 + r.Intn(3)
+	for ; k > 0; k-- {
+		i := r.Intn(len(out))
+		e := out[i]
+		e.parents = append([]int{}, e.parents...)
+		switch r.Intn(4) {
+		case 0:
+			e.seq += 1 + r.Intn(3)
+			vu.Stat("mal_seq_gap")
+		case 1:
+			if len(e.parents) >= 2 {
+				e.parents[0], e.parents[1] = e.parents[1], e.parents[0]
+				vu.Stat("mal_foreign_selfparent")
+			}
+		case 2:
+			e.seq = 1
+			vu.Stat("mal_seq1_with_parents")
+		default:
+			e.cr = r.Intn(d.nv)
+			vu.Stat("mal_creator")
+		}
+		out[i] = e
+	}
+	return out
+}
+
 var c05FcSizes = []int{0, 1, 200, 200, 7}
 var c05VcSizes = []int{0, 64, 1638, 1638}
 
 func init() {
 	vu.Register("C05", &vu.Prop{
 		Gen: func(r *rand.Rand, n int, tier string, emit func(...string)) {
+			if tier == "thorough" {
+				// small scope: EVERY parents-first order of small fork DAGs, all pairs after every Add
+				for k := 0; k < 12; k++ {
+					nv := 2 + r.Intn(3)
+					d := c05GenDag(r, nv, 5+r.Intn(3), 1+r.Intn(2), 0.5)
+					for _, order := range c05AllOrders(d, 400) {
+						in := c05Header(d, c05FcSizes[r.Intn(len(c05FcSizes))], c05VcSizes[r.Intn(len(c05VcSizes))], 0, 0)
+						for _, e := range order {
+							in = append(in, c05EvOp(e)...)
+							in = append(in, ";", "Q", "0", "0", ";", "M", "0")
+						}
+						in = append(in, ";", "V", "0")
+						emit(in...)
+						vu.Stat("small_scope_order")
+					}
+				}
+			}
 			for i := 0; i < n; {
 				d := c05PickDag(r, tier, i)
 				for mode := 0; mode < 3 && i < n; mode++ {
 					order := c05Order(r, d, mode)
-					in := c05Header(d, c05FcSizes[r.Intn(len(c05FcSizes))], c05VcSizes[r.Intn(len(c05VcSizes))], 0, 0)
+					mal := 0
+					if r.Intn(8) == 0 {
+						mal = 1
+						order = c05Malform(r, d, order)
+					}
+					in := c05Header(d, c05FcSizes[r.Intn(len(c05FcSizes))], c05VcSizes[r.Intn(len(c05VcSizes))], 0, mal)
 					k := 6 + r.Intn(7)
 					bad := -1
 					if r.Intn(5) == 0 {
